@@ -1,6 +1,7 @@
 package h
 
 import (
+	"github.com/xjslang/xjs/ast"
 	"github.com/xjslang/xjs/compiler"
 	"github.com/xjslang/xjs/sourcemap"
 	"github.com/xjslang/xjs/token"
@@ -66,6 +67,13 @@ func ZZH8SourceMap() {
 	}
 	indent := []int{2, 0, -1, 4}[sym.Choose("indent", sym.Param("indents", 1))]
 	c := newCompiler(pretty, semi, indent).WithSourceMap()
+	if sym.Param("reuse", 0) == 1 {
+		// the compiler object has compiled another program before (sharing an identifier, at another name index)
+		c.Compile(&ast.Program{Statements: []ast.Statement{
+			&ast.ExpressionStatement{Expression: &ast.Identifier{Token: tk(token.IDENT, "zz"), Value: "zz"}},
+			&ast.ExpressionStatement{Expression: &ast.Identifier{Token: tk(token.IDENT, "a"), Value: "a"}},
+		}})
+	}
 	res := c.Compile(prog)
 	code := res.Code
 	sym.Observe("code", code, pretty, semi)
